@@ -77,8 +77,12 @@ def _dep(d):
     if isinstance(d, str):
         return d
     opts = []
+    if d.get("gaplen"):
+        opts.append(f"gaplength {d['gaplen']}")
     if d.get("gap"):
         opts.append(f"gapduration {d['gap']}")
+    if d.get("maxgap"):
+        opts.append(f"maxgapduration {d['maxgap']}")
     if d.get("onstart"):
         opts.append("onstart")
     if d.get("onend"):
